@@ -421,6 +421,89 @@ def closed_case(op, acc: core.Acc, tier):
     _ = E
 
 
+# ---- how long cursor.sqlstate shows a failure ------------------------------------------------------------------------------
+# "cursor.sqlstate shows the failed state until the next execute resets it", whatever that next execute is and however
+# it ends: every kind of failing statement (one per error code the catalogue produces, single- and multi-step) x every
+# kind of next execute on the same cursor - statements the engine answers, statements the library answers itself (SET,
+# USE, BEGIN, a statement skipped through the nop_regexes option), statements carried out in several steps, a script,
+# and executes that fail for another reason (connection closed meanwhile; text the parser rejects).
+LIFETIME_FAIL = [
+    ("missing_table", "select * from db1.s1.table_that_is_missing", "42S02"),
+    ("missing_table_multi_step", "comment on table db1.s1.table_that_is_missing is 'c'", "42S02"),
+    ("no_context", "select * from unqualified_table_without_context", "22000"),
+    ("unknown_column", "select no_such_column from db1.s1.t", "02000"),
+]
+LIFETIME_NEXT = [
+    ("select", "select 1"),
+    ("dml", "insert into db1.s1.t values (77, 'n')"),
+    ("set_variable", "set lifetime_v = 1"),
+    ("use_schema", "use schema db1.s1"),
+    ("begin", "begin"),
+    ("skipped_by_nop_regexes", "call skipped_procedure()"),
+    ("multi_step_create", "create table db1.s1.lifetime_t (v varchar(3)) comment = 'c'"),
+    ("describe", "describe table db1.s1.t"),
+    ("show", "show terse schemas in database db1"),
+    ("executemany", "EM:insert into db1.s1.t values (%s, %s)"),
+    ("fails:closed_connection", "select 1"),
+    ("fails:rejected_by_parser", "select from from from"),
+]
+
+
+def lifetime_case(item, acc: core.Acc, tier):
+    import fakesnow.instance as inst
+
+    (fid, fsql, fstate), (nid, nsql) = item
+    fs = inst.FakeSnow(nop_regexes=[r"^call\s+skipped_procedure"])
+    rp = {"lifetime": [fid, nid]}
+    cls = f"failed={fid},next_execute={nid}"
+    acc.count("evaluations")
+    acc.count("transitions")
+    acc.count("traces")
+    try:
+        admin = fs.connect(database="db1", schema="s1")
+        ac = admin.cursor()
+        for q in ADMIN_SETUP[:2]:
+            ac.execute(q)
+        conn = fs.connect(database="db1") if fid == "no_context" else fs.connect(database="db1", schema="s1")
+        cur = conn.cursor()
+        try:
+            cur.execute(fsql)
+            acc.violation("C07.cursor_sqlstate", cls + ",first_did_not_fail", {"sql": fsql}, rp)
+            return None
+        except Exception as e:  # noqa: BLE001
+            first = exc_info(e)
+        if cur.sqlstate != fstate or first[3] != fstate:
+            acc.violation("C07.cursor_sqlstate", cls + ",after_failure", {"sql": fsql, "want": fstate, "cursor": cur.sqlstate, "exception": first}, rp)
+            return None
+        if nid == "fails:closed_connection":
+            conn.close()
+        nxt = ("ok",)
+        try:
+            if nsql.startswith("EM:"):
+                cur.executemany(nsql[3:], [(78, "m"), (79, "m")])
+            else:
+                cur.execute(nsql)
+        except Exception as e:  # noqa: BLE001
+            nxt = exc_info(e)
+        after = cur.sqlstate
+        acc.obs((fid, nid, first[1:4], nxt[:4], after))
+        acc.outcome((nid, nxt[0], after))
+        acc.nontrivial((fid, nid))
+        if nid.startswith("fails:"):
+            if nxt[0] != "err":
+                acc.violation("C07.cursor_sqlstate", cls + ",next_did_not_fail", {"sql": nsql, "got": nxt}, rp)
+            elif after == fstate:
+                # the new failure has its own state (or none): the old one must be gone
+                acc.violation("C07.cursor_sqlstate", cls, {"first": fsql, "next": nsql, "next_outcome": nxt, "cursor_sqlstate_still": after}, rp)
+        elif nxt[0] != "ok":
+            acc.violation("C07.usable_afterwards", cls, {"first": fsql, "next": nsql, "got": nxt}, rp)
+        elif after is not None:
+            acc.violation("C07.cursor_sqlstate", cls, {"first": fsql, "next": nsql, "cursor_sqlstate_still": after}, rp)
+    finally:
+        fs.duck_conn.close()
+    return None
+
+
 def run(ctx: core.Ctx):
     cat = catalogue(ctx.tier)
     states = STATES_QUICK + ([] if ctx.quick else STATES_MORE)
@@ -452,6 +535,9 @@ def run(ctx: core.Ctx):
     states = states + STATES_ENDED
     ctx.pmap(expand, items)
     ctx.pmap(closed_case, CLOSED_OPS, recheck=False, parallel=False)
+    life = [(f, n) for f in LIFETIME_FAIL for n in LIFETIME_NEXT]
+    ctx.pmap(lifetime_case, life, recheck=False)
+    ctx.extra["sqlstate_lifetime"] = {"failing": [f[0] for f in LIFETIME_FAIL], "next_execute": [n[0] for n in LIFETIME_NEXT], "cases": len(life)}
     for st in states:
         ctx.acc.add("states", st)
     ctx.acc.counters["states"] = len(states)
@@ -463,7 +549,11 @@ def run(ctx: core.Ctx):
 def replay(payload):
     r = payload["replay"]
     acc = core.Acc()
-    if "closed_op" in r:
+    if "lifetime" in r:
+        f = next(x for x in LIFETIME_FAIL if x[0] == r["lifetime"][0])
+        n = next(x for x in LIFETIME_NEXT if x[0] == r["lifetime"][1])
+        lifetime_case((f, n), acc, "quick")
+    elif "closed_op" in r:
         closed_case(r["closed_op"], acc, "quick")
     else:
         expand((tuple(r["state"]), [tuple(s) for s in r["stmts"]]), acc, "quick")
